@@ -78,7 +78,7 @@ def digest (s : State) : String :=
   let bal := if s.chain.isEmpty then "err" else match balances s ["a0", "a1", "a2", "a3", "a4", "a5", "a6", "a7"] with
     | .error _ => "err"
     | .ok l => ",".intercalate (l.map fun (a, b) => s!"{a}:{b.cc}/{b.ch}/{b.pc}/{b.ph}")
-  s!"Dhead={head};len={s.chain.length};chain={chain};ux={ux};xor={hex16 s.xor};ai={ai};ac={s.aidx.length};pool={pool};pu={pu};hp={hp};ho={ho};ht={ht};hau={hau};hat={hat};bal={bal}"
+  s!"Dhead={head};len={s.chain.length};chain={chain};ux={ux};xor={hex16 s.xor};ai={ai};ac={s.aidx.length};pool={pool};pu={pu};hp={hp};ho={ho};ht={ht};hau={hau};hat={hat};bal={bal};vbq={if headSeq s < 2 then "-" else "ok"}"
 
 /-! ### driver state -/
 
@@ -121,7 +121,7 @@ def propsViolated (w : W) (implD modelD : String) (implRes modelRes : String) : 
   let c02 := if field implD "ux" != field modelD "ux" then ["C02"] else []
   let c04 := if field implD "chain" != field modelD "chain" || (implRes == "ok") != (modelRes == "ok") then ["C04"] else []
   let c06 := if field implD "pool" != field modelD "pool" || field implD "pu" != field modelD "pu" then ["C06"] else []
-  let c07 := if ["xor", "ai", "ac", "ho", "ht", "hau", "hat", "hp", "bal"].any (fun k => field implD k != field modelD k) then ["C07"] else []
+  let c07 := if ["xor", "ai", "ac", "ho", "ht", "hau", "hat", "hp", "bal", "vbq"].any (fun k => field implD k != field modelD k) then ["C07"] else []
   let c33 := if field implD "chain" != field modelD "chain" then ["C33"] else []
   c01 ++ c02 ++ c04 ++ c06 ++ c07 ++ c33
 
@@ -203,7 +203,10 @@ def step1 (w : W) (op impl : String) : W × String × Verdict :=
     let g (k : String) : Nat := match m.find? (·.1 == k) with | some (_, v) => v | none => 0
     let vp : VParams := ⟨g "burn", g "maxtxn", g "prec"⟩
     let up : VParams := ⟨g "ubf", g "umax", g "uprec"⟩
-    let cfgP : Cfg := { arb := true, unconfirmed := vp, create := vp, user := up, maxBlock := g "maxblk", locked := ["a6", "a7"] }
+    let has (k : String) : Bool := (m.find? (·.1 == k)).isSome
+    let cp : VParams := ⟨if has "cbf" then g "cbf" else g "burn", if has "cmax" then g "cmax" else g "maxtxn",
+      if has "cprec" then g "cprec" else g "prec"⟩
+    let cfgP : Cfg := { arb := true, unconfirmed := vp, create := cp, user := up, maxBlock := g "maxblk", locked := ["a6", "a7"] }
     let cfgF : Cfg := { cfgP with arb := g "arbF" == 1 }
     let txns := (txnSecs secs).map parseTxn
     let bsec := (secs.find? (·.startsWith "B")).getD "B"
